@@ -302,7 +302,7 @@ fn list_json(dir: &Path) -> Vec<PathBuf> {
 /// Decide whether a failing verdict is a violation or attributed to a known finding.
 fn classify(kf: &KnownFile, case: &Case, v: &Verdict) -> Result<(), Option<String>> {
     match &v.status {
-        Status::Fail { kind } => match known::attribute(kf, case, kind) {
+        Status::Fail { kind } => match known::attribute(kf, case, kind, &v.labels) {
             Some(f) => Err(Some(f.id.clone())),
             None => Err(None),
         },
